@@ -105,6 +105,11 @@ def run_plant_case(ctx, case):
         ctx.count("skipped", "bus-without-capacity")
         return False
     tol_split = 1e-4 if case["kind"] == "hybrid" else 1e-9
+    br = inp.get("breaker") or []
+    if len(br) >= 2:
+        d = np.diff(np.array(br, dtype=int), axis=1)
+        ctx.count("ties_open_and_close_at_one_point", ("numeric-status" if inp.get("dtype", {}).get("breaker", "bool") != "bool" else "bool-status")
+                  if np.any((d != 0).any(axis=0) & (d.sum(axis=0) == 0)) else "no")
     rng = np.random.default_rng(case["idx"] + 17)
     # (1) split into consecutive parts
     if n >= 2:
@@ -116,6 +121,14 @@ def run_plant_case(ctx, case):
             merged = part if merged is None else extend(merged, part)
         ctx.count("relation", "split")
         compare(ctx, whole, merged, f"whole vs parts at {cuts}", where, "not-additive-over-split", tol_split)
+    # (1b) every step on its own, summed: no step may depend on what came before it
+    if n >= 2:
+        merged = None
+        for t in range(n):
+            part, _ = run_total(case, slice_inputs(inp, [t]))
+            merged = part if merged is None else extend(merged, part)
+        ctx.count("relation", "single-steps")
+        compare(ctx, whole, merged, "whole vs sum of single steps", where, "not-additive-over-single-steps", tol_split)
     # (2) permute steps together with all inputs
     if n >= 2:
         perm = [int(i) for i in rng.permutation(n)]
@@ -191,7 +204,7 @@ def run(ctx):
     if CORPUS.exists():
         cases += [json.loads(p.read_text()) for p in sorted(CORPUS.glob("*.json"))]
     ncorp = len(cases)
-    for i in range(ctx.n(40, 1200)):
+    for i in range(ctx.n(80, 1200)):
         cases.append(R.gen_plant_case(ctx.rng, i, n=int(ctx.rng.choice([2, 3, 5, 8]))))
     for ci, case in enumerate(cases):
         ok = run_plant_case(ctx, case)
